@@ -142,6 +142,23 @@ def make_graph(rng, max_formulas):
             f = f'=IFERROR({R(pick_cell())}/{R(pick_cell())},{R(pick_cell())})'
         sheets[s][a] = f
         formulas.append((s, a))
+    # twins: the character-identical formula text on ANOTHER worksheet (a template sheet copied per month). Its references without a sheet
+    # prefix mean the cells of the sheet each copy stands on; a cell that reads both copies makes one translation reach both.
+    if ns > 1:
+        plain = [(s_, a_) for (s_, a_) in formulas if '!' not in sheets[s_][a_]]
+        rng.shuffle(plain)
+        for (s_, a_) in plain[:2]:
+            t_ = rng.choice([x for x in range(ns) if x != s_])
+            if a_ in sheets[t_]:
+                continue
+            sheets[t_][a_] = sheets[s_][a_]
+            formulas.append((t_, a_))
+            free = [f'{c}{r}' for r in (8, 9) for c in COLS if f'{c}{r}' not in sheets[ns - 1]]
+            if free:
+                b_ = rng.choice(free)
+                q = lambda i: (f"'{titles[i]}'!" if ' ' in titles[i] else f'{titles[i]}!')      # noqa: E731
+                sheets[ns - 1][b_] = f'={q(s_)}{a_}*1000+{q(t_)}{a_}' if rng.random() < 0.5 else f'={q(t_)}{a_}*1000+{q(s_)}{a_}'
+                formulas.append((ns - 1, b_))
     spec = wbspec.spec(*[wbspec.sheet(t, c) for t, c in zip(titles, sheets)])
     return spec, formulas
 
